@@ -1,8 +1,8 @@
 #!/bin/bash
-# usage: tools/eval_mutants.sh <ID> <tier> <check ids...>  : verifies /tmp/mut/<ID>.out/patch_{A,B}.diff and runs the checks against them
+# usage: tools/eval_mutants.sh <NAME> <tier> <check ids...>  : verifies /tmp/mut/<NAME>.out/patch_{A,B}.diff and runs the checks against them
 ID="$1"; TIER="$2"; shift 2
 for X in A B; do
   [ -f /tmp/mut/$ID.out/patch_$X.diff ] || continue
-  echo "#### $ID-$X"; /verif/tools/verify_mutant.sh /tmp/mut/$ID /tmp/mut/$ID.out $X | head -2
-  /verif/tools/try_mutant.sh /tmp/mut/$ID.out/patch_$X.diff $TIER "$@" 2>&1 | grep -E "^==|VIOLATION|what:" | cut -c1-260
+  echo "#### $ID-$X"; /verif/tools/verify_mutant.sh /tmp/mut/$ID /tmp/mut/$ID.out $X | head -2 | cut -c1-250
+  /verif/tools/try_mutant.sh /tmp/mut/$ID.out/patch_$X.diff $TIER "$@" 2>&1 | grep -E "^==|VIOLATION|what:|APPLY" | cut -c1-230
 done
